@@ -28,12 +28,12 @@ def alphabet(ut=True, scalars=True):
     a = []
     if ut:
         a += [
-            acall(["k"], "<func>f", [V("<t>"), V(Y)]),
+            acall(["k"], "<func>rhs", [V("<t>"), V(Y)]),
             assign("w", S(V(Y), P(V("<dt>"), V("k")))),
             assign("w2", V("w")),                                   # move between temporaries
             assign(Y, V("w")),                                      # move into persistent state
             assign(Y, V("w2")),
-            acall(["k"], "<func>f", [V("<t>"), V("w")]),            # overwrite of a temporary
+            acall(["k"], "<func>rhs", [V("<t>"), V("w")]),            # overwrite of a temporary
             assign("w", V("k")),
             assign("w", S(V("w"), V("w2"))),                        # self-update of a user-type temporary
             assign(Y, S(V(Y), P(C(2), V("k")))),
@@ -50,6 +50,8 @@ def alphabet(ut=True, scalars=True):
             assign("<t>", S(V("<t>"), V("<dt>"))),
             assign("a", IF(CMP(">", V(N), C(1)), C(1), C(2))),
             assign("a", IF(CMP("<", V(M), C(1)), S(V(N), C(3)), IF(CMP("!=", V(N), C(2)), C(5), V(M)))),
+            assign(N, IF(CMP(">", V(N), C(1)), C(1), C(2))),
+            assign(M, IF(CMP("<=", V(M), C(1)), S(V(N), C(3)), IF(CMP(">=", V(N), C(2)), C(5), V(M)))),
             assign("arr", CALL("<builtin>array", [C(3)])),
             assign("arr", S(V("i"), V(N)), sub=[V("i")], loops=[["i", C(0), C(3)]]),
             assign("a", ["sub", V("arr"), [C(1)]]),
@@ -58,7 +60,7 @@ def alphabet(ut=True, scalars=True):
             assign("a", ["min", [V(N), V(M)]]),
             assign(N, P(C(-1), ["pow", V(N), C(2)])),
             assign("b", S(V(M), C(1))),
-            acall(["a", "b"], "<func>g2", [V("a"), V("b")]),           # two self-dependent assignees at once
+            acall(["a", "b"], "<func>h2", [V("a"), V("b")]),           # two self-dependent assignees at once
         ]
     a += [
         if_(CMP(">", V(N), C(2))),
@@ -70,21 +72,23 @@ def alphabet(ut=True, scalars=True):
     return a
 
 
-P1_CALLS = [assign(N, C(0)), {"op": "switch", "to": "p0"}]
+# The second phase also fixes the kinds of the persistent inputs for kind inference (a persistent variable that
+# is only ever read has no kind, and the Fortran target does not support such methods).
+P1_CALLS = [assign(N, C(0)), assign(M, C(2)), acall([Y], "<func>rhs", [V("<t>"), V(Y)]), {"op": "switch", "to": "p0"}]
 
 
 def registry():
     import dagrt.codegen.fortran as f
     from dagrt.function_registry import base_function_registry, register_ode_rhs
-    freg = register_ode_rhs(base_function_registry, "y", identifier="<func>f")
-    freg = freg.register_codegen("<func>f", "fortran", f.CallCode("""
+    freg = register_ode_rhs(base_function_registry, "y", identifier="<func>rhs")
+    freg = freg.register_codegen("<func>rhs", "fortran", f.CallCode("""
         ${result} = -2*${y} + ${t}
         """))
     from dagrt.data import Scalar
     from dagrt.function_registry import register_function
-    freg = register_function(freg, "<func>g2", ("x", "y"), result_names=("r1", "r2"),
+    freg = register_function(freg, "<func>h2", ("x", "y"), result_names=("r1", "r2"),
                              result_kinds=(Scalar(True), Scalar(True)))
-    freg = freg.register_codegen("<func>g2", "fortran", f.CallCode("""
+    freg = freg.register_codegen("<func>h2", "fortran", f.CallCode("""
         ${r1} = ${x} + 1
         ${r2} = ${y} * 2
         """))
@@ -101,12 +105,12 @@ def fortran_generator(module_name="dagrtmod", explicit_index_vars=True, **kw):
     return f.CodeGenerator(module_name, function_registry=registry(), user_type_map={"y": at}, **kw)
 
 
-def func_f(t, y):
+def func_rhs(t, y):
     return -2 * y + t
 
 
-def func_g2(x, y):
+def func_h2(x, y):
     return x + 1, y * 2
 
 
-FUNCS = {"<func>f": func_f, "<func>g2": func_g2}
+FUNCS = {"<func>rhs": func_rhs, "<func>h2": func_h2}
